@@ -430,7 +430,7 @@ class OutputWiki(argparse.Action):  # pylint: disable=too-few-public-methods
 def handle_output(
     args: argparse.Namespace,
     detector_results: List["ListOutput"],
-    teal: "Teal",
+    teal: Optional["Teal"],
     error: Optional[str],
 ) -> None:
     """Util function to output tealer results.
@@ -442,14 +442,16 @@ def handle_output(
         args: Namespace object representing the command line arguments selected
             by the user.
         detector_results: results of running the selected detectors.
-        teal: The contract.
+        teal: The contract. None if the contract could not be loaded.
         error: Error string if any detector or printer resulted in an error.
     """
     expanded_detector_results: "ListOutput" = []
     for result in detector_results:
         expanded_detector_results.extend(result)
 
-    output_directory = ROOT_OUTPUT_DIRECTORY / Path(teal.contract_name)
+    output_directory = ROOT_OUTPUT_DIRECTORY
+    if teal is not None:
+        output_directory = output_directory / Path(teal.contract_name)
     os.makedirs(output_directory, exist_ok=True)
     if args.json is None:
 
@@ -506,7 +508,7 @@ def fetch_contract(args: argparse.Namespace) -> Tuple[str, str]:
         with open(program, encoding="utf-8") as f:
             return f.read(), contract_name
     except FileNotFoundError as e:
-        raise TealerException from e
+        raise TealerException(f'Contract file "{program}" is not found') from e
 
 
 # pylint: disable=too-many-locals,too-many-branches
@@ -555,9 +557,12 @@ def main() -> None:
                 output.generate_output(Path("."))
         sys.exit(1)
 
+    # the contract is not available if the error occurs while loading it
+    teal: Optional["Teal"] = None
     try:  # pylint: disable=too-many-nested-blocks
         contract_source, contract_name = fetch_contract(args)
         tealer = init_tealer_from_single_contract(contract_source, contract_name)
+        teal = tealer.contracts[contract_name]
 
         # TODO: handle this as a subcommand instead of a flag
         if args.subcommand == "regex":
@@ -607,8 +612,8 @@ def main() -> None:
         error = str(e)
 
     # TODO: refactor this logic
-    if error or args.subcommand == "detect":
-        handle_output(args, results_detectors, tealer.contracts[contract_name], error)
+    if error is not None or args.subcommand == "detect":
+        handle_output(args, results_detectors, teal, error)
 
 
 if __name__ == "__main__":
